@@ -376,6 +376,31 @@ def shard(ctx):
         else:
             check_report(ctx, json.loads(rv["out"]), json.loads(rn["out"]), {"kind": "single", "rules": qtext, "data": qd}, "library")
             ctx.res.counts["query_comparison_gadgets"] += 1
+    # ---- rules files without any named rule (a library of `let`s and parameterised rules), alone and next to files whose rules all skip
+    if ctx.mine(2):
+        lib = "let wanted = \"x\"\nrule helper(v) {\n    %v exists\n}\n"
+        skipper = "rule never when zz_nokey exists {\n    a exists\n}\n"
+        passer = "rule fine {\n    a exists\n}\n"
+        for names_ in (["lib"], ["lib", "skipper"], ["skipper", "lib"], ["lib", "passer"], ["skipper"]):
+            fl = {"d.json": "{\"a\": 1}", "lib.guard": lib, "skipper.guard": skipper, "passer.guard": passer}
+            argv = ["validate", "--structured", "-S", "none", "-o", "json", "-d", "{S}/d.json"] + [x for n_ in names_ for x in ("-r", "{S}/%s.guard" % n_)]
+            r = ctx.w.run({"k": "cli", "argv": argv, "files": fl})
+            ctx.res.cases += 1
+            if r.get("r") != "ok":
+                ctx.inconclusive("crash" if core.crash_signature(r) else "library-file-gadget-error")
+                continue
+            try:
+                rep = json.loads(r["out"])[0]
+            except (ValueError, IndexError):
+                ctx.violation("library-file:unparsable", "structured output for %s does not parse" % names_, {"kind": "libfiles", "names": names_})
+                continue
+            want = "FAIL" if rep.get("not_compliant") else ("PASS" if rep.get("compliant") else "SKIP")
+            ctx.res.counts["library_file_reports"] += 1
+            if rep.get("status") != want:
+                ctx.violation("file-status:rules-file-without-rules", "rules files %s: status %s, but compliant=%s not_applicable=%s not_compliant=%d imply %s" % (
+                    names_, rep.get("status"), rep.get("compliant"), rep.get("not_applicable"), len(rep.get("not_compliant", [])), want), {"kind": "libfiles", "names": names_})
+            else:
+                ctx.res.distinct.add(("library-file", tuple(names_), want))
     # ---- unary checks over several values of which some pass and some fail: only the failing ones may be listed
     if ctx.mine(1):
         udoc = {"Resources": {"a": {"Tags": [1], "Name": "x"}, "b": {"Name": 5}, "c": {"Tags": [], "Name": ""}, "d": {"Tags": [2], "Name": ["n"]}}}
@@ -508,6 +533,18 @@ def strip_paths(e):
 
 
 def replay(case, w):
+    if case.get("kind") == "libfiles":
+        fl = {"d.json": "{\"a\": 1}", "lib.guard": "let wanted = \"x\"\nrule helper(v) {\n    %v exists\n}\n",
+              "skipper.guard": "rule never when zz_nokey exists {\n    a exists\n}\n", "passer.guard": "rule fine {\n    a exists\n}\n"}
+        argv = ["validate", "--structured", "-S", "none", "-o", "json", "-d", "{S}/d.json"] + [x for n_ in case["names"] for x in ("-r", "{S}/%s.guard" % n_)]
+        r = w.run({"k": "cli", "argv": argv, "files": fl})
+        try:
+            rep = json.loads(r["out"])[0]
+        except (ValueError, IndexError, KeyError):
+            return False, "no report"
+        want = "FAIL" if rep.get("not_compliant") else ("PASS" if rep.get("compliant") else "SKIP")
+        return rep.get("status") == want, "status %s, lists imply %s" % (rep.get("status"), want)
+
     class C:
         pass
     msgs = []
